@@ -169,7 +169,7 @@ reg("C12",
     H("c12_q16_roundtrip", "c12::q16::roundtrip", unwind=130, funcs=["From<P16E1> for Q16E1", "Q16E1::from_posit", "Q16E1::to_posit", "From<Q16E1> for P16E1"], space_bits=16, bound="every P16E1"),
     H("c12_q16_state_ops", "c12::q16::state_ops", unwind=130, funcs=["Q16E1::neg", "Q16E1::clear", "Q16E1::from_bits", "Q16E1::to_bits"], space_bits=128, bound="every 128-bit state"),
     H("c12_q16_split2", "c12::q16::split2", unwind=130, timeout=1800, funcs=["Q16E1::into_two_posits"], space_bits=128, bound="every non-NaR state whose residual is not the NaR pattern"),
-    H("c12_q16_split", "c12::q16::split", unwind=130, timeout=3600, tier="thorough", funcs=["Q16E1::into_three_posits"], space_bits=128, bound="every non-NaR state whose residuals are not the NaR pattern"),
+    H("c12_q16_split", "c12::q16::split", unwind=130, timeout=3600, funcs=["Q16E1::into_three_posits"], space_bits=128, bound="every non-NaR state whose residuals are not the NaR pattern"),
     H("c12_q32_roundtrip", "c12::q32::roundtrip", unwind=66, timeout=3600, mem_gb=10, tier="thorough", funcs=["From<P32E2> for Q32E2", "Q32E2::from_posit", "Q32E2::to_posit", "From<Q32E2> for P32E2"], space_bits=32, bound="every P32E2"),
     H("c12_q32_state_ops", "c12::q32::state_ops", unwind=66, timeout=300, funcs=["Q32E2::neg", "Q32E2::clear", "Q32E2::from_bits", "Q32E2::to_bits"], space_bits=512, bound="every 512-bit state"),
     H("c12_q32_split2", "c12::q32::split2", unwind=66, timeout=2400, mem_gb=14, tier="thorough", funcs=["Q32E2::into_two_posits"], space_bits=512, bound="every non-NaR state whose residual is not the NaR pattern"),
@@ -408,5 +408,5 @@ reg("C11",
     H("c11_p8_ln", "c11::ln8", unwind=40, timeout=600, funcs=["P8E0::ln"], space_bits=8, bound="every P8E0 input, against the correctly rounded table"),
     )
 for h in PLAN["C11"]:
-    if h.name.endswith(("_s0", "_s3", "_s8", "_sc")) or h.name.startswith("c11_p8"):
+    if h.name.endswith(("_s0", "_s3", "_s8", "_sc", "_edges")) or h.name.startswith("c11_p8"):
         reg("C16", h)
